@@ -155,14 +155,32 @@ for _i, _c in enumerate(CLIENTS):
     _c.sec.sec_backend = ENT[_i]                        # distinct keys A and B (ideal scheme)
 
 
-def entities(first: int, a1: int, a2: int, rs: int, third: bool):
+NEUTRAL = RSACrypto(Key("N"))           # a backend that only ever verifies (what a third party sees)
+
+
+def entities(first: int, a1: int, a2: int, rs: int, third: bool, received: int = 0):
     """Two entities in one process sign redirects through Entity.apply_binding one after the
     other (optionally the first one again afterwards): every URL verifies under its sender's key
     and under nobody else's."""
-    first, a1, a2, rs, third = [concrete(x) for x in (first, a1, a2, rs, third)]
+    first, a1, a2, rs, third, received = [concrete(x) for x in (first, a1, a2, rs, third, received)]
     order = [first, 1 - first] + ([first] if third else [])
     algs = [ALGS[a1], ALGS[a2], ALGS[a1]]
     ok = True
+    # `received`: bit e set = entity e has, before sending anything, verified a redirect it received
+    # from the other entity (its own backend, the peer's key) - a fresh pair of backends per call
+    for _i, _c in enumerate(CLIENTS):
+        ENT[_i] = RSACrypto(KEYS[_i])
+        _c.sec.sec_backend = ENT[_i]
+    for e in (0, 1):
+        if received & (1 << e):
+            peer = 1 - e
+            info = pack.http_redirect_message(MSG, "https://sp.example.org/slo", RS[rs], "SAMLRequest", algs[e], RSACrypto(KEYS[peer]).get_signer(algs[e]))
+            with untraced():
+                q = dict((k, v[0]) for k, v in parse_qs(urlsplit(dict(info["headers"])["Location"]).query, keep_blank_values=True).items())
+            try:
+                ok = ok and bool(verify_redirect_signature(dict(q), ENT[e], sigkey=KEYS[peer]))
+            except Exception:
+                ok = False
     for n, e in enumerate(order):
         info = CLIENTS[e].apply_binding(BINDING_HTTP_REDIRECT, MSG, "https://idp.example.com/sso", RS[rs], sign=True, sigalg=algs[n])
         loc = dict(info["headers"])["Location"]
@@ -175,7 +193,12 @@ def entities(first: int, a1: int, a2: int, rs: int, third: bool):
             except Exception:
                 res = False
             ok = ok and (res == (v == e))
-    return ok, True, "order=%r" % (order,)
+            try:
+                res = bool(verify_redirect_signature(dict(q), NEUTRAL, sigkey=KEYS[v]))
+            except Exception:
+                res = False
+            ok = ok and (res == (v == e))
+    return ok, True, "order=%r received=%r" % (order, received)
 
 
 def _rs_for(m, e):
@@ -214,13 +237,13 @@ CONDITIONS = [
 ]
 
 CONDITIONS.append(
-    Cond(name="entities", fn="entities", params=[("first", "int"), ("a1", "int"), ("a2", "int"), ("rs", "int"), ("third", "bool")],
-         pre=["0 <= first <= 1", "0 <= a1 < 5", "0 <= a2 < 5", "0 <= rs < %d" % len(RS)],
+    Cond(name="entities", fn="entities", params=[("first", "int"), ("a1", "int"), ("a2", "int"), ("rs", "int"), ("third", "bool"), ("received", "int")],
+         pre=["0 <= first <= 1", "0 <= a1 < 5", "0 <= a2 < 5", "0 <= rs < %d" % len(RS), "0 <= received <= 3"],
          partitions={"quick": [{"a1": a, "a2": a, "rs": a % len(RS)} for a in range(5)] + [{"a1": 2, "a2": 4, "rs": 1}],
                      "thorough": [{"a1": a, "a2": b} for a in range(5) for b in range(5)]},
          timeout={"quick": 600, "thorough": 1200}, path_timeout=120,
          functions=["entity.Entity.apply_binding (HTTP-Redirect, sign=True)", "httpbase.HTTPBase.use_http_get", "pack.http_redirect_message", "sigver.verify_redirect_signature"],
-         bounds="two Saml2Client entities with distinct keys in one process signing one after the other (either order, optionally the first again), same or different algorithms"))
+         bounds="two Saml2Client entities with distinct keys in one process signing one after the other (either order, optionally the first again), same or different algorithms; each entity may first have verified a redirect received from the other (own backend, peer's key); every URL is also verified by a neutral third backend"))
 
 ASSUMPTIONS = [
     "ideal signature scheme: cryptography.asymmetric.key_sign returns the (key, digest, message) triple, key_verify compares triples - the RSA mathematics are C code outside the claim",
